@@ -12,7 +12,7 @@ import P2.Props.C04
 import P2.Extracted.C01
 
 namespace P2.C01
-open P2.Header P2.LogStore P2.HeaderLemmas
+open P2.Header P2.LogStore P2.HeaderLemmas P2.LogStoreLemmas
 
 /-- What `validate_header` establishes. -/
 theorem validateHeader_ok {E : Type} (c : ExtCodec E) (tbl : SigTable) (h : Header E)
@@ -132,12 +132,6 @@ theorem c01_insert_only_if_valid {E : Type} (c : ExtCodec E) (tbl : SigTable) (s
 
 /-! ### Tie to the source text -/
 
-/-- numbering of `OperationError` used by the regenerated definition -/
-def errCode : OpErr → Nat
-  | .unsupportedVersion => 0 | .missingSignature => 1 | .signatureMismatch => 2 | .seqNumMismatch => 3
-  | .inconsistentPayloadInfo => 4 | .missingPayloadHash => 5 | .payloadMismatch => 6 | .tooManyAuthors => 7
-  | .seqNumNonIncremental => 8 | .backlinkMissing => 9 | .backlinkMismatch => 10
-
 /-- The model's `validateHeader` is, check for check and in the same order, the Lean term that
     `rs2lean` regenerates from the current body of `validate_header` in
     p2panda-core/src/operation.rs on every run (dropping, reordering or changing a check there
@@ -155,6 +149,19 @@ theorem c01_validate_header_is_source {E : Type} (c : ExtCodec E) (tbl : SigTabl
       by_cases hz : h.payloadSize = 0 <;> by_cases hq : h.seq = 0 <;>
       simp [h1, hz, hq, errCode, Nat.pos_of_ne_zero] <;> omega
   · simp [h1, errCode]
+
+/-- Step order of `ingest_operation`, read from the current source: `validate_operation` comes
+    first, before `begin()` and before anything is looked up or written; de-duplication is keyed on
+    `operation.hash` and answers `Ok(false)`; the operation that is inserted is the validated one. -/
+theorem c01_extracted_ingest_order :
+    P2.Extracted.C01.ingestCalls = ["validate_operation", "begin", "has_operation_tx", "rollback",
+      "get_latest_entry_tx", "validate_prunable_backlink", "insert_operation", "associate", "commit"] ∧
+    P2.Extracted.C01.pastHeaderExpr = "store .get_latest_entry_tx(&operation.header.verifying_key, log_id) .await .map_err(STORE)? .map(|operation| operation.header)" ∧
+    P2.Extracted.C01.vpbArgs = "past_header.as_ref(), &operation.header, prune_flag" ∧
+    P2.Extracted.C01.dedupKey = "&operation.hash" ∧
+    P2.Extracted.C01.dedupReturn = "Ok(false)" ∧
+    P2.Extracted.C01.insertArgs = "&id, operation, log_id" := by
+  refine ⟨rfl, rfl, rfl, rfl, rfl, rfl⟩
 
 /-! ### Tampering -/
 
